@@ -256,6 +256,14 @@ def _receive_path(ctx, thorough):
                     sc.append(("adv", 4))
                 items.append(("faults", sc + [("heal",)]))
                 meta.append((kind, fr, dmg))
+                if all(dmg[i] == fr[i] for i in lenpos) and ctx.rng.random() < 0.5:
+                    # the damaged frame arrives, with an intact frame right behind it in the same segment, while ANOTHER task is in the
+                    # middle of resetting the connection (an API reset / a failed write): nothing of that segment may be delivered
+                    trigger = ctx.rng.choice([[("reset",)], [("failw", 1), ("send", 1, "ok", "idem")]])
+                    sc2 = [("net", "accept"), ("open",), ("adv", 8)] + trigger + [("turn", ctx.rng.choice([0, 1, 2, 3])), ("peerbytes", (dmg + frames[0]).hex()),
+                                                                                ("adv", 4), ("heal",)]
+                    items.append(("faults", sc2))
+                    meta.append((kind + "+follower-during-reset", fr, dmg))
         # special intermediate register values: the intact frame must be delivered, a check-byte-damaged one must not
         intact = []
         for reg, fr in _special_register_frames(gen, ctx.rng)[: (60 if thorough else 21)]:
